@@ -247,9 +247,14 @@ Section Engine.
   Definition folders (fixmap : bool) (cores : nat) (l : list A) : list (nat * A) :=
     if 1 <? cores then folders_procs fixmap 0 0 (split_procs cores l) else folders_serial l.
 
-  (* histories: evaluations, visualize calls (through `map` whenever a pool exists) and changes of
-     n_cores (the setter builds a fresh pool for k > 1 and KEEPS the old one for k <= 1) *)
-  Inductive op := OEval (x : X) (masks : list (list bool)) | OMap (x : X) (masks : list (list bool)) | OCores (k : nat).
+  (* histories: evaluations, visualize calls (through `map` whenever a pool exists), changes of
+     n_cores (the setter builds a fresh pool for k > 1 and KEEPS the old one for k <= 1) and
+     modify_before_fit: every member may change its own state in place (modf d) and return itself; the
+     combined analysis is REBUILT from the members (n_cores = c0 from general.yaml), so a pool that
+     exists afterwards was forked from the modified members.  The worker processes hold copies of
+     the members taken when the pool was forked: s_procs is that snapshot *)
+  Inductive op := OEval (x : X) (masks : list (list bool)) | OMap (x : X) (masks : list (list bool)) | OCores (k : nat)
+                | OModify (d : Z) (c0 : nat).
   Record st := mkSt { s_cores : nat; s_pool : bool; s_procs : list (list A); s_qs : list (list res) }.
   Definition st_init : st := mkSt 1 false [] [].
   Definition set_cores (l : list A) (s : st) (k : nat) : st :=
@@ -267,30 +272,33 @@ Section Engine.
     end.
 
   Variables ev vis : A -> X -> res.
-  Definition step (drain fixmap : bool) (l : list A) (s : st) (o : op) : st * list out :=
+  Variable modf : Z -> A -> A.
+  Definition step (drain fixmap : bool) (l : list A) (s : st) (o : op) : list A * st * list out :=
     match o with
-    | OCores k => (set_cores l s k, [])
+    | OCores k => (l, set_cores l s k, [])
+    | OModify d c0 => let l' := map (modf d) l in (l', set_cores l' (mkSt c0 false [] []) c0, [])
     | OEval x masks =>
         if 1 <? s_cores s then
           match pool_call ev drain (length l) (s_procs s) x masks (s_qs s) with
-          | Some (r, qs') => (mkSt (s_cores s) (s_pool s) (s_procs s) qs', [OutAns (Some r)])
-          | None => (s, [OutAns None])
+          | Some (r, qs') => (l, mkSt (s_cores s) (s_pool s) (s_procs s) qs', [OutAns (Some r)])
+          | None => (l, s, [OutAns None])
           end
-        else (s, [OutAns (Some (serial ev l x))])
+        else (l, s, [OutAns (Some (serial ev l x))])
     | OMap x masks =>
         if s_pool s then
           let w := filter (fun p => negb (raises vis x (snd p))) (folders_procs fixmap 0 0 (s_procs s)) in
           match pool_call vis drain (length l) (s_procs s) x masks (s_qs s) with
-          | Some (r, qs') => (mkSt (s_cores s) (s_pool s) (s_procs s) qs', [OutMap (Some r) w])
-          | None => (s, [OutMap None w])
+          | Some (r, qs') => (l, mkSt (s_cores s) (s_pool s) (s_procs s) qs', [OutMap (Some r) w])
+          | None => (l, s, [OutMap None w])
           end
-        else (s, [OutMap (Some (serial vis l x)) (written_serial vis x (folders_serial l))])
+        else (l, s, [OutMap (Some (serial vis l x)) (written_serial vis x (folders_serial l))])
     end.
 
   Fixpoint run (drain fixmap : bool) (l : list A) (s : st) (ops : list op) : st * list out :=
     match ops with
     | [] => (s, [])
-    | o :: r => let (s1, a1) := step drain fixmap l s o in let (s2, a2) := run drain fixmap l s1 r in (s2, a1 ++ a2)
+    | o :: r => let '(l1, s1, a1) := step drain fixmap l s o in
+                let (s2, a2) := run drain fixmap l1 s1 r in (s2, a1 ++ a2)
     end.
 End Engine.
 
@@ -394,6 +402,14 @@ Definition nth_ad (ads : list adesc) (j : nat) : adesc := nth j ads (mkA 0 [] []
 Definition cinst := (list Z * list (list Z))%type.
 Definition ev_items (ads : list adesc) : item -> cinst -> res := item_lik (fun j s => lik_of (nth_ad ads j) s).
 Definition vis_items (ads : list adesc) : item -> cinst -> res := item_lik (fun j s => vis_of (nth_ad ads j) s).
+(* a member with the state it set up in place in modify_before_fit (an offset of its likelihood) *)
+Definition member := (item * Z)%type.
+Definition shift (off : Z) (r : res) : res := match r with RVal v => RVal (v + off) | e => e end.
+Definition ev_members (ads : list adesc) : member -> cinst -> res := fun m x => shift (snd m) (ev_items ads (fst m) x).
+Definition vis_members (ads : list adesc) : member -> cinst -> res := fun m x => vis_items ads (fst m) x.
+(* a ModelAnalysis inherits the default modify_before_fit of Analysis: the wrapped analysis is not asked *)
+Definition modf_member (d : Z) (m : member) : member := if item_hm (fst m) then m else (fst m, (snd m + d)%Z).
+Definition fresh_members (its : list item) : list member := map (fun it => (it, 0%Z)) its.
 
 Definition res_eqb (a b : res) : bool :=
   match a, b with RVal v, RVal w => Z.eqb v w | RExc k, RExc l => Nat.eqb k l | _, _ => false end.
@@ -434,13 +450,13 @@ Fixpoint well_indexed_from (i : nat) (its : list item) : bool :=
 
 (* observed steps: answers and, for visualize, (folder, analysis id) pairs *)
 Inductive obs_out := ObsAns (r : option res) | ObsMap (r : option res) (written : list (nat * nat)).
-Definition out_eqb (a : out (A := item)) (b : obs_out) : bool :=
+Definition out_eqb (a : out (A := member)) (b : obs_out) : bool :=
   match a, b with
   | OutAns r, ObsAns r' => ores_eqb r r'
-  | OutMap r w, ObsMap r' w' => ores_eqb r r' && list_eqb pair_eqb (map (fun p => (fst p, item_id (snd p))) w) w'
+  | OutMap r w, ObsMap r' w' => ores_eqb r r' && list_eqb pair_eqb (map (fun p => (fst p, item_id (fst (snd p)))) w) w'
   | _, _ => false
   end.
-Fixpoint outs_eqb (a : list (out (A := item))) (b : list obs_out) : bool :=
+Fixpoint outs_eqb (a : list (out (A := member))) (b : list obs_out) : bool :=
   match a, b with
   | [], [] => true
   | x :: a', y :: b' => out_eqb x y && outs_eqb a' b'
@@ -449,7 +465,7 @@ Fixpoint outs_eqb (a : list (out (A := item))) (b : list obs_out) : bool :=
 
 (* evaluations of the indexed kinds carry one value per prior class *)
 Inductive iop := IEval (vals : list Z) (masks : list (list bool)) | IMap (vals : list Z) (masks : list (list bool))
-               | ICores (k : nat).
+               | ICores (k : nat) | IModify (d : Z) (c0 : nat).
 Definition parts_of (cls : list (list nat)) (vals : list Z) : cinst :=
   ([], map (map (fun k => nth k vals 0%Z)) cls).
 Definition iop_to_op (cls : list (list nat)) (o : iop) : op (X := cinst) :=
@@ -457,6 +473,7 @@ Definition iop_to_op (cls : list (list nat)) (o : iop) : op (X := cinst) :=
   | IEval vals masks => OEval (parts_of cls vals) masks
   | IMap vals masks => OMap (parts_of cls vals) masks
   | ICores k => OCores k
+  | IModify d c0 => OModify d c0
   end.
 
 Definition free_of (e : expr) : bool := match e with Free _ => true | _ => false end.
@@ -482,7 +499,7 @@ Definition check_case (c : cfg) (cs : case) : bool :=
   | CStruct e obs => aval_eqb (eval c e) obs
   | CHist ads e ops obs outs residue =>
       let v := eval c e in
-      let '(s, os) := run (ev_items ads) (vis_items ads) (fix_drain c) (fix_map c) (items_of v) st_init ops in
+      let '(s, os) := run (ev_members ads) (vis_members ads) modf_member (fix_drain c) (fix_map c) (fresh_members (items_of v)) st_init ops in
       aval_eqb v obs && outs_eqb os outs && list_eqb (list_eqb res_eqb) (s_qs s) residue
   | CIdx ads e default own free obs obs_classes obs_count ops outs residue =>
       let v := eval c e in
@@ -491,7 +508,7 @@ Definition check_case (c : cfg) (cs : case) : bool :=
       let cls := classes ms in
       aval_eqb v obs
       && (if well_indexed_from 0 its && negb (match v with VErr => true | _ => false end) then
-            let '(s, os) := run (ev_items ads) (vis_items ads) (fix_drain c) (fix_map c) its st_init
+            let '(s, os) := run (ev_members ads) (vis_members ads) modf_member (fix_drain c) (fix_map c) (fresh_members its) st_init
                                 (map (iop_to_op cls) ops) in
             list_eqb (list_eqb Nat.eqb) cls obs_classes && Nat.eqb (prior_count ms) obs_count
             && outs_eqb os outs && list_eqb (list_eqb res_eqb) (s_qs s) residue
